@@ -32,7 +32,8 @@ M32 = 1 << 32
 FUEL = 30000          # statement/expression steps per run (thorough: x4)
 
 MODEL_FILES = ["Msl/Syntax.v", "Msl/Ops.v", "Msl/Sem.v", "Msl/Run.v", "Msl/Layout.v", "Msl/Decode.v",
-               "Msl/Catalogue.v", "Msl/CatalogueProofs.v", "Msl/CatalogueTie.v"]
+               "Msl/Catalogue.v", "Msl/CatalogueProofs.v", "Msl/FloatConv.v", "Msl/FloatConvProofs.v", "Msl/VectorProofs.v",
+               "Msl/CatalogueTie.v"]
 
 
 # ------------------------------------------------------------------ helpers
@@ -312,10 +313,10 @@ def judge_programs(ctx, runner, cases, srcs, stats):
                 bad, nchk = mslcorr.check_layout(plan.T, plan.ir, c["ast"], lay, plan, c["epf"])
                 stats["layout_members_checked"] += nchk
                 if bad:
-                    ctx.violation("C++ layout of the emitted MSL structs differs from the IR layout in %s (%s, options %s):\n%s"
-                                  % (name, c["ep"], c["set"], "\n".join(bad[:8])),
-                                  files={"input.wgsl": srcs.get(name, ""), "emitted.msl": c["text"]},
-                                  key="layout:%s:%s" % (name, bad[0].split(":")[0]))
+                    report("C++ layout of the emitted MSL structs differs from the IR layout in %s (%s, options %s):\n%s"
+                           % (name, c["ep"], c["set"], "\n".join(bad[:8])),
+                           {"input.wgsl": srcs.get(name, ""), "emitted.msl": c["text"]},
+                           "layout:%s:%s" % (name, bad[0].split(":")[0]))
         a = runner.ir_res[c["ir"]]
         b = runner.msl_res[c["msl"]]
         stats["runs"] += 1
@@ -380,7 +381,8 @@ def run(ctx):
         return gen.regenerate(tools, ["msloptable"])
     try:
         ok, failed, log = vcheck.proof_step(ctx, "Props/C04.v", MODEL_FILES, gen_writer=gw,
-                                            extra_obligation_files=["Msl/CatalogueTie.v", "Msl/CatalogueProofs.v", "Msl/Run.v", "Msl/Layout.v", "Msl/Decode.v"])
+                                            extra_obligation_files=["Msl/CatalogueTie.v", "Msl/CatalogueProofs.v", "Msl/FloatConv.v", "Msl/FloatConvProofs.v",
+                                                                    "Msl/VectorProofs.v", "Msl/Run.v", "Msl/Layout.v", "Msl/Decode.v"])
     except gen.GenError as e:
         ok, failed, log = False, ["Gen/MslOpTable.v"], str(e)
         gen_error = str(e)
